@@ -19,6 +19,9 @@ package verifier_test
 // JSON-LD: at+5s >= issuance && at-5s <= expiry (vc.ValidAt with maxSkew = 5 s, verifier.go); JWT: additionally the
 // JWT's own nbf/exp are validated without skew, so inside the two skew zones a JWT credential may be rejected: those
 // probes are "either" (counted, no expectation). Both directions are checked everywhere else.
+// For JSON-LD credentials the signed proof options are a second window, generated independently of the credential's
+// dates (proof.created earlier / later than issuanceDate, proof.expires absent / before / after expirationDate):
+// proof.created <= at+5s && at <= proof.expires+5s (proof.ProofOptions.ValidAt with the same maxSkew, signature_verifier.go).
 
 import (
 	"fmt"
@@ -39,7 +42,7 @@ type c01bEvent struct {
 }
 
 type c01bProbe struct {
-	Base  string `json:"base"` // nil | issue-skew | issue | expiry | expiry+skew | version | ctrl | far
+	Base  string `json:"base"` // nil | issue-skew | issue | expiry | expiry+skew | version | ctrl | far | pcreated-skew | pcreated | pexpires | pexpires+skew
 	Idx   uint32 `json:"idx,omitempty"`
 	Delta int    `json:"delta,omitempty"` // seconds
 }
@@ -52,6 +55,10 @@ type c01bCase struct {
 	IssueAt        int         `json:"issueAt"` // seconds relative to creation of the DID document
 	ExpiryAfter    int         `json:"expiryAfter"`
 	FarExpiry      bool        `json:"farExpiry,omitempty"` // expiry in 2090 instead
+	// JSON-LD only: the proof's own window, independent of the credential's dates. created = issuance + ProofCreatedDelta;
+	// ProofExpiresAfter != 0: proof option expires = issuance + that many seconds (may lie before or after expirationDate)
+	ProofCreatedDelta int `json:"proofCreatedDelta,omitempty"`
+	ProofExpiresAfter int `json:"proofExpiresAfter,omitempty"`
 	Revoked        bool        `json:"revoked,omitempty"`
 	ForeignKey     bool        `json:"foreignKey,omitempty"` // proof made with (and naming) a key of ANOTHER, active DID document
 	// how that other DID relates to the issuer's: "" = unrelated | path | host-suffix | suffix | prefix | case (near-miss DIDs,
@@ -108,10 +115,16 @@ func c01bGen(t *rapid.T) c01bCase {
 	default:
 		c.ExpiryAfter = rapid.SampledFrom([]int{1, 2, 6, 11, 12, 30, 200, 4000}).Draw(t, "expiryAfter")
 	}
+	bases := []string{"nil", "issue-skew", "issue", "expiry", "expiry+skew", "version", "version", "version", "ctrl", "far"}
+	if c.Format == "ldp_vc" && rapid.Bool().Draw(t, "ownProofWindow") {
+		c.ProofCreatedDelta = rapid.SampledFrom([]int{0, 0, -300, -30, -7, 7, 30, 300}).Draw(t, "proofCreatedDelta")
+		c.ProofExpiresAfter = rapid.SampledFrom([]int{0, 0, 1, 6, 12, 40, 500, 5000}).Draw(t, "proofExpiresAfter")
+		bases = append(bases, "pcreated-skew", "pcreated-skew", "pcreated", "pexpires", "pexpires+skew", "pexpires+skew")
+	}
 	np := rapid.IntRange(4, 14).Draw(t, "nprobes")
 	for i := 0; i < np; i++ {
 		p := c01bProbe{
-			Base:  rapid.SampledFrom([]string{"nil", "issue-skew", "issue", "expiry", "expiry+skew", "version", "version", "version", "ctrl", "far"}).Draw(t, fmt.Sprintf("p%d.base", i)),
+			Base:  rapid.SampledFrom(bases).Draw(t, fmt.Sprintf("p%d.base", i)),
 			Idx:   rapid.Uint32Range(0, 7).Draw(t, fmt.Sprintf("p%d.idx", i)),
 			Delta: rapid.SampledFrom([]int{-1, 0, 1, -1, 0, 1, -2, 2, -6, 6}).Draw(t, fmt.Sprintf("p%d.delta", i)),
 		}
@@ -230,6 +243,19 @@ func c01bRun(x *h.Ctx, c c01bCase) {
 		spec.KID = foreignKID
 		x.Class("foreign-signer=" + c01bForeignName(c.Foreign))
 	}
+	// JSON-LD: the proof's own window (ProofOptions.ValidAt: created <= at+skew, at <= expires+skew)
+	proofCreated := issued
+	var proofExpires *time.Time
+	if c.Format == "ldp_vc" {
+		proofCreated = issued.Add(time.Duration(c.ProofCreatedDelta) * time.Second)
+		if c.ProofExpiresAfter != 0 {
+			proofExpires = c01Ptr(issued.Add(time.Duration(c.ProofExpiresAfter) * time.Second))
+		}
+		spec.ProofCreated, spec.ProofExpires = &proofCreated, proofExpires
+		if c.ProofCreatedDelta != 0 || proofExpires != nil {
+			x.Class("proof-window-differs-from-credential-window")
+		}
+	}
 	if c.Kind == "ura" {
 		spec.Type, spec.Contexts = "NutsUraCredential", []string{"https://nuts.nl/credentials/2024"}
 		spec.Subject = []any{map[string]any{"id": subjectDID, "organization": map[string]any{"ura": "1234", "name": "n", "city": "c"}}}
@@ -291,6 +317,15 @@ func c01bRun(x *h.Ctx, c c01bCase) {
 		if expires != nil && t.Add(-c01Skew*time.Second).After(*expires) {
 			return mustReject, "after-expiry"
 		}
+		if c.Format == "ldp_vc" {
+			// the signed proof options are bound to the validation time as well (same skew)
+			if proofCreated.After(t.Add(c01Skew * time.Second)) {
+				return mustReject, "before-proof-created"
+			}
+			if proofExpires != nil && proofExpires.Add(c01Skew*time.Second).Before(t) {
+				return mustReject, "after-proof-expires"
+			}
+		}
 		ver := versionAt(at)
 		if ver == nil {
 			return mustReject, "no-document-version-yet"
@@ -341,6 +376,20 @@ func c01bRun(x *h.Ctx, c c01bCase) {
 			return c01Ptr(expires.Add(c01Skew * time.Second).Add(d))
 		case "version":
 			return c01Ptr(versions[int(p.Idx)%len(versions)].at.Add(d))
+		case "pcreated-skew":
+			return c01Ptr(proofCreated.Add(-c01Skew * time.Second).Add(d))
+		case "pcreated":
+			return c01Ptr(proofCreated.Add(d))
+		case "pexpires":
+			if proofExpires == nil {
+				return c01Ptr(proofCreated.Add(d))
+			}
+			return c01Ptr(proofExpires.Add(d))
+		case "pexpires+skew":
+			if proofExpires == nil {
+				return c01Ptr(proofCreated.Add(d))
+			}
+			return c01Ptr(proofExpires.Add(c01Skew * time.Second).Add(d))
 		case "ctrl":
 			if ctrlDead != nil {
 				return c01Ptr(ctrlDead.Add(d))
@@ -356,6 +405,12 @@ func c01bRun(x *h.Ctx, c c01bCase) {
 	}
 	for _, ver := range versions {
 		boundaries = append(boundaries, ver.at)
+	}
+	if c.Format == "ldp_vc" {
+		boundaries = append(boundaries, proofCreated.Add(-c01Skew*time.Second))
+		if proofExpires != nil {
+			boundaries = append(boundaries, proofExpires.Add(c01Skew*time.Second))
+		}
 	}
 	if ctrlDead != nil && hasCtrl {
 		boundaries = append(boundaries, *ctrlDead)
